@@ -90,6 +90,26 @@ dev_impl! {
         out.push(("cumulative_sum", Self::c06_un(Some(sizes.cumulative_sum()))));
         out.push(("injections", Self::c06_un(sizes.injections(&idx))));
         out.push(("is_injective", Val::Bool(p.is_injective())));
+        // the semifinite wrapper: finite ; finite, finite ; label array, identities, sources and targets
+        {
+            use open_hypergraphs::semifinite::{SemifiniteArrow, SemifiniteObject};
+            let (pa, ra): (SemifiniteArrow<K, L>, SemifiniteArrow<K, L>) = (p.clone().into(), r.clone().into());
+            let la: SemifiniteArrow<K, L> = Self::sf(c.labels.clone()).into();
+            let un = |a: Option<SemifiniteArrow<K, L>>| -> Val {
+                match a {
+                    Some(SemifiniteArrow::Finite(f)) => Val::F(Some(Self::un_ff(&f))),
+                    Some(SemifiniteArrow::Semifinite(s)) => Val::Lab(Some(Self::un_sf(&s))),
+                    Some(SemifiniteArrow::Identity) => Val::Bool(true),
+                    None => Val::F(None),
+                }
+            };
+            out.push(("semifinite-compose-finite", un(pa.compose(&ra))));
+            out.push(("semifinite-compose-labels", match pa.compose(&la) { None => Val::Lab(None), x => un(x) }));
+            out.push(("semifinite-labels-not-composable-on-the-left", Val::Bool(la.compose(&pa).is_none())));
+            out.push(("semifinite-identity", un(Some(<SemifiniteArrow<K, L> as Arrow>::identity(SemifiniteObject::Finite(c.a))))));
+            let obj = |o: SemifiniteObject<K, L>| -> Option<usize> { match o { SemifiniteObject::Finite(n) => Some(n), SemifiniteObject::Set(_) => None } };
+            out.push(("semifinite-types", Val::F(Some((vec![obj(pa.source()).unwrap_or(usize::MAX), obj(pa.target()).unwrap_or(usize::MAX), obj(la.source()).unwrap_or(usize::MAX), obj(la.target()).map_or(0, |_| 1)], 0)))));
+        }
         out
     }
 }
@@ -248,6 +268,12 @@ fn control_ref(c: &Case, name: &str) -> Val {
             Val::F(Some((t, *off.last().unwrap())))
         }
         "is_injective" => Val::Bool((0..p.0.len()).all(|i| !p.0[..i].contains(&p.0[i]))),
+        "semifinite-compose-finite" => Val::F(if p.1 == r.0.len() { Some((p.0.iter().map(|i| r.0[*i]).collect(), r.1)) } else { None }),
+        "semifinite-compose-labels" => Val::Lab(if p.1 == c.labels.len() { Some(p.0.iter().map(|i| c.labels[*i]).collect()) } else { None }),
+        "semifinite-labels-not-composable-on-the-left" => Val::Bool(true),
+        "semifinite-identity" => Val::F(Some(((0..a).collect(), a))),
+        // source of p, target of p, source of the label array (its length), target of the label array is not finite
+        "semifinite-types" => Val::F(Some((vec![p.0.len(), p.1, c.labels.len(), 0], 0))),
         other => panic!("harness: unknown clause {}", other),
     }
 }
